@@ -27,15 +27,35 @@ pub fn gc_cfgs(seed: u64, all: bool) -> Vec<RunCfg> {
     let mut v = vec![RunCfg::plain()];
     let ks: Vec<u64> = if all { (1..=16).collect() } else { vec![1, 2, 3, 5, 8, 13, 16] };
     for k in ks {
-        v.push(RunCfg { name: format!("gc{}", k), sched: Sched::Every(k), budgets: None, prefix: false });
+        v.push(RunCfg { name: format!("gc{}", k), sched: Sched::Every(k), budgets: None, prefix: false, live: false });
     }
-    v.push(RunCfg { name: "gcr1".into(), sched: Sched::Random(seed * 2 + 1, 64), budgets: None, prefix: false });
-    v.push(RunCfg { name: "gcr2".into(), sched: Sched::Random(seed * 7 + 3, 400), budgets: None, prefix: false });
+    v.push(RunCfg { name: "gcr1".into(), sched: Sched::Random(seed * 2 + 1, 64), budgets: None, prefix: false, live: false });
+    v.push(RunCfg { name: "gcr2".into(), sched: Sched::Random(seed * 7 + 3, 400), budgets: None, prefix: false, live: false });
+    v
+}
+
+/// Slice configurations of C13: constant budgets 1..64, or seeded random budget sequences in 1..10^4.
+pub fn slice_cfgs(seed: u64, constant: bool) -> Vec<RunCfg> {
+    let mut v = vec![RunCfg::plain()];
+    if constant {
+        for b in 1..=64usize {
+            v.push(RunCfg { name: format!("slice{}", b), sched: Sched::None, budgets: Some(vec![b]), prefix: false, live: false });
+        }
+    } else {
+        let mut rng = crate::rng::Rng::new(seed ^ 0x5151);
+        for i in 0..6 {
+            let hi = [4i64, 16, 100, 1000, 10000, 10000][i];
+            let bs: Vec<usize> = (0..40).map(|_| rng.range(1, hi) as usize).collect();
+            v.push(RunCfg { name: format!("slicer{}", i), sched: Sched::None, budgets: Some(bs), prefix: false, live: false });
+        }
+    }
     v
 }
 
 pub fn cfgs_for(level: &str, seed: u64) -> Vec<RunCfg> {
     match level {
+        "slices64" => slice_cfgs(seed, true),
+        "slicesr" => slice_cfgs(seed, false),
         "gc" => gc_cfgs(seed, false),
         "gcall" => gc_cfgs(seed, true),
         other => standard_cfgs(other),
@@ -56,6 +76,15 @@ pub fn main(args: &[String]) -> Result<(), String> {
     let mut n = 0;
     for i in 0..count {
         let sseed = seed.wrapping_mul(1_000_003).wrapping_add(i as u64);
+        if kind == "fail" {
+            // two histories per case: A (with the failing forms) and its effects-only twin B
+            let kmax: usize = get(&m, "kmax", 8);
+            for j in fail_records(2 * i + 1, sseed, kmax)? {
+                writeln!(f, "{}", j).map_err(|e| e.to_string())?;
+                n += 1;
+            }
+            continue;
+        }
         let (forms, tags, extra): (Vec<String>, Vec<String>, Vec<(&str, Value)>) = match kind {
             "lang" => {
                 let mut g = LangGen::new(sseed);
@@ -64,6 +93,32 @@ pub fn main(args: &[String]) -> Result<(), String> {
                 let forms = g.session(nforms, fail);
                 (forms, g.tags.clone(), vec![])
             }
+            "scope" => {
+                // enumeration (from + i) or random sampling of scope skeletons with l levels
+                let l: usize = get(&m, "l", 2);
+                let mode = m.get("mode").cloned().unwrap_or("enum".into());
+                let sk = if mode == "enum" {
+                    let from: usize = get(&m, "from", 0);
+                    let stride: usize = get(&m, "stride", 1);
+                    let idx = from + i * stride;
+                    if idx >= crate::gen_scope::space(l) {
+                        break;
+                    }
+                    crate::gen_scope::nth(l, idx)
+                } else {
+                    crate::gen_scope::random(l, &mut crate::rng::Rng::new(sseed))
+                };
+                (sk.forms(), vec![format!("scope:{}", sk.describe())], vec![])
+            }
+            "cont" => {
+                let (forms, tags) = crate::gen_cont::session(&mut crate::rng::Rng::new(sseed));
+                (forms, tags, vec![])
+            }
+            "alloc" => {
+                let (forms, tags) = crate::gen_alloc::session(&mut crate::rng::Rng::new(sseed));
+                (forms, tags, vec![])
+            }
+            "scopeloop" => (crate::gen_scope::loop_sessions(&mut crate::rng::Rng::new(sseed)), vec!["scope-loop".into()], vec![]),
             other => return Err(format!("unknown kind {}", other)),
         };
         let mut cells = vec![];
@@ -85,4 +140,54 @@ pub fn main(args: &[String]) -> Result<(), String> {
     }
     eprintln!("gen {}: {} sessions", kind, n);
     Ok(())
+}
+
+fn cells(forms: &[String]) -> Result<Vec<marwood::cell::Cell>, String> {
+    let mut cells = vec![];
+    for t in forms {
+        match parse_all(t) {
+            Ok(c) if c.len() == 1 => cells.push(c.into_iter().next().unwrap()),
+            Ok(_) => return Err(format!("generator text is not one datum: {}", t)),
+            // a form the reader rejects stands for a read error: an unreadable datum is
+            // represented by a form that fails to compile in the same way in both histories
+            Err(e) => return Err(format!("generator produced unreadable text: {}", e)),
+        }
+    }
+    Ok(cells)
+}
+
+/// C07: records for history A (failing forms) and history B (effects-only twins).
+fn fail_records(id: usize, sseed: u64, kmax: usize) -> Result<Vec<Value>, String> {
+    use crate::corpus::session_json_runs;
+    use crate::sess::run_session;
+    let (items, tags) = crate::gen_fail::session(&mut crate::rng::Rng::new(sseed), kmax);
+    let fa: Vec<String> = items.iter().map(|i| i.a.clone()).collect();
+    let fb: Vec<String> = items.iter().map(|i| i.b.clone()).collect();
+    let ca = cells(&fa)?;
+    let cb = cells(&fb)?;
+    let cfg = RunCfg { name: "plain".into(), sched: Sched::None, budgets: None, prefix: false, live: true };
+    let mut oa = run_session(&ca, &cfg);
+    let ob = run_session(&cb, &cfg);
+    for (i, it) in items.iter().enumerate() {
+        if i >= oa.len() || i >= ob.len() {
+            break;
+        }
+        if it.probe {
+            let mut t = json!({"r": ob[i]["r"].clone()});
+            for k in ["v", "u", "tr"] {
+                if !ob[i][k].is_null() {
+                    t[k] = ob[i][k].clone();
+                }
+            }
+            oa[i]["twin"] = t;
+        }
+        if let Some(first) = it.rep {
+            oa[i]["rep"] = json!(first + 1);
+        }
+    }
+    let extra = vec![("tags", json!(tags)), ("kind", json!("fail")), ("seed", json!(sseed))];
+    let ja = session_json_runs(id, &ca, None, vec![("plain".into(), oa)], &extra);
+    let extra_b = vec![("tags", json!(tags)), ("kind", json!("fail-twin")), ("seed", json!(sseed))];
+    let jb = session_json_runs(id + 1, &cb, None, vec![("plain".into(), ob)], &extra_b);
+    Ok(vec![ja, jb])
 }
